@@ -667,6 +667,83 @@ func forwardingRound(t *testing.T, w *bufio.Writer, round int, g *gen) {
 	fmt.Fprintf(w, "E\n")
 }
 
+// unsetRaceRound: strategy unset racing "unset, set, add a next hop" on the same prefix, many times.  Whatever the order,
+// the next hop added last by the second goroutine must be there afterwards (an unset only removes the strategy; the entry
+// is pruned only when nothing is left).  Only a failing attempt is written out, as a recorded history for the
+// sequential-witness search.
+func unsetRaceRound(t *testing.T, w *bufio.Writer, round int, impl string, m int) {
+	core.GetConfig().Tables.Fib.Hashtable.M = uint16(m)
+	if impl == "H" {
+		table.CreateFIBTable("hashtable")
+	} else {
+		table.CreateFIBTable("nametree")
+	}
+	resetRib()
+	f := table.FibStrategyTable
+	P := iname{1, 2, 3}
+	pn := P.enc()
+	type job struct{ start, done chan struct{} }
+	var clock atomic.Int64
+	var stamps [2][4][2]int64 // goroutine, op index, inv/resp
+	work := [2][]op{
+		{{kind: "uns", name: P}},
+		{{kind: "uns", name: P}, {kind: "sets", name: P, a: []uint64{1}}, {kind: "ins", name: P, a: []uint64{7, 3}}},
+	}
+	jobs := [2]job{{make(chan struct{}), make(chan struct{})}, {make(chan struct{}), make(chan struct{})}}
+	quit := make(chan struct{})
+	for gi := 0; gi < 2; gi++ {
+		go func(gi int) {
+			for {
+				select {
+				case <-quit:
+					return
+				case <-jobs[gi].start:
+				}
+				for k, o := range work[gi] {
+					stamps[gi][k][0] = clock.Add(1)
+					o.run()
+					stamps[gi][k][1] = clock.Add(1)
+				}
+				jobs[gi].done <- struct{}{}
+			}
+		}(gi)
+	}
+	defer close(quit)
+	deadline := time.Now().Add(700 * time.Millisecond)
+	attempts := 0
+	for time.Now().Before(deadline) {
+		attempts++
+		f.SetStrategyEnc(pn, stratName(2))
+		clock.Store(2)
+		jobs[0].start <- struct{}{}
+		jobs[1].start <- struct{}{}
+		for gi := 0; gi < 2; gi++ {
+			select {
+			case <-jobs[gi].done:
+			case <-time.After(stuckAfter):
+				fmt.Fprintf(w, "R u%d %s %d 2\nX watchdog: strategy unset / set / insert on one prefix did not return (deadlock)\nE\n", round, impl, m)
+				w.Flush()
+				t.Fatalf("unset race round %d stuck", round)
+			}
+		}
+		if got := nhStr(f.FindNextHopsEnc(pn)); got != "7:3" {
+			fmt.Fprintf(w, "R u%d %s %d 2\nU / /1 /1/2 /1/2/3 /1/2/3/4\nH 0 1 2 sets %s 2 => ok\n", round, impl, m, P.String())
+			for gi := 0; gi < 2; gi++ {
+				for k, o := range work[gi] {
+					fmt.Fprintf(w, "H %d %d %d %s => ok\n", gi+1, stamps[gi][k][0], stamps[gi][k][1], o.String())
+				}
+			}
+			fmt.Fprint(w, finalObs([]iname{{}, {1}, {1, 2}, P, {1, 2, 3, 4}}))
+			fmt.Fprintf(w, "E\n")
+			return
+		}
+		f.RemoveNextHopEnc(pn, 7)
+		f.UnSetStrategyEnc(pn)
+	}
+	fmt.Fprintf(w, "R u%d %s %d 2\nE\n", round, impl, m)
+	_ = attempts
+}
+
 // listingRound: management listings (GetAllFIBEntries, GetAllForwardingStrategies, Rib.GetAllEntries) run beside
 // forwarding lookups and updates on prefixes whose next hops are NOT in ascending cost order (unrecorded: race / abort /
 // torn-value detection; every value read must be one that was written).
@@ -931,9 +1008,20 @@ func TestConc(t *testing.T) {
 		forcedRounds(t, w)
 	}
 	start := time.Now()
-	ms := []int{1, 2, 3}
+	ms := []int{1, 2, 5, 3}
 
 	for round := 0; round < rounds && time.Since(start) < budget; round++ {
+		// non-default configurations take turns: a forwarder with a single forwarding thread still shares its tables
+		// with the management thread and the face goroutines
+		if round%3 == 0 {
+			core.GetConfig().Fw.Threads = 1
+		} else {
+			core.GetConfig().Fw.Threads = 8
+		}
+		if round%16 == 7 {
+			unsetRaceRound(t, w, round, []string{"H", "T"}[(round/16)%2], ms[(round/16)%len(ms)])
+			continue
+		}
 		if round%5 == 4 {
 			// face-table round: recorded small ones and heavy ones alternate
 			table.CreateFIBTable("nametree")
